@@ -109,7 +109,7 @@ def call_super(fv, node, st, spec):
         ci = fv.E.fe.classes[b]
         if meth in ci.methods:
             q = ci.module + '.' + ci.name + '.' + meth
-            c = find_method_contract(fv, ci.key, meth)
+            c = fv.E.sc.impl_contracts.get(q) or find_method_contract(fv, ci.key, meth)
             if c is None:
                 fv.err(node, 'no contract for super().%s (%s)' % (meth, q))
             recv = st.env['self']
@@ -344,8 +344,18 @@ def apply_contract(fv, c, node, st, spec, recv, closure=False):
         if mname.startswith('.'):
             continue
         gk = fv.global_key(mname) or sub.global_key(mname)
-        if mname in post.env and closure and (gk is None or mname in st.env):
+        pnames = [pn for pn, _ in c.params]
+        if mname in post.env and closure and (gk is None or mname in st.env) and mname not in vals_from_args(c, node, recv):
             st.env[mname] = post.env[mname]
+        elif mname in pnames and mname in post.env:
+            # in-out parameter: the callee mutates the container passed by the caller (must be a plain variable)
+            argnode = arg_node_for(c, node, recv, mname)
+            if argnode is None and closure and mname in st.env:
+                st.env[mname] = post.env[mname]
+            elif isinstance(argnode, ast.Name):
+                fv.bind(argnode.id, post.env[mname], st)
+            else:
+                fv.err(node, 'callee %s mutates its parameter %s: the argument must be a variable' % (c.qual, mname))
         elif gk is not None and ('glob:' + gk) in post.env:
             st.env['glob:' + gk] = post.env['glob:' + gk]
     if st.heap is not post.heap:
@@ -357,6 +367,30 @@ def apply_contract(fv, c, node, st, spec, recv, closure=False):
         st.dead = True
         st.pc = z3.BoolVal(False)
     return res
+
+
+def arg_node_for(c, node, recv, pname):
+    pnames = [pn for pn, _ in c.params]
+    if recv is not None:
+        pnames = pnames[1:]
+    if pname in pnames:
+        i = pnames.index(pname)
+        if i < len(node.args):
+            return node.args[i]
+    for k in node.keywords:
+        if k.arg == pname:
+            return k.value
+    return None
+
+
+def vals_from_args(c, node, recv):
+    """names of the contract parameters that were passed explicitly at this call"""
+    pnames = [pn for pn, _ in c.params]
+    if recv is not None:
+        pnames = pnames[1:]
+    out = set(pnames[:len(node.args)])
+    out.update(k.arg for k in node.keywords if k.arg)
+    return out
 
 
 def contract_mentions(c, names):
@@ -819,7 +853,15 @@ def bi_type(fv, node, st, spec):
     return SV(f(box(v)), T.Abs('PyType'))
 
 
+def bi_defaultdict(fv, node, st, spec):
+    """defaultdict(list): a map whose missing keys read as the empty list"""
+    if len(node.args) == 1 and isinstance(node.args[0], ast.Name) and node.args[0].id == 'list':
+        return SV(P.map_empty, T.Ty('map', (ANY, T.Seq(ANY)), 'defaultlist'))
+    fv.err(node, 'defaultdict form')
+
+
 BUILTINS = {
+    'defaultdict': bi_defaultdict,
     'len': bi_len, 'any': bi_any, 'all': bi_all, 'set': bi_set, 'list': bi_list, 'tuple': bi_tuple,
     'dict': bi_dict, 'OrderedDict': bi_dict, 'isinstance': bi_isinstance, 'min': bi_min, 'max': bi_max,
     'str': bi_str, 'print': bi_print, 'bool': bi_bool, 'copy': bi_copy, 'deepcopy': bi_deepcopy,
